@@ -7,6 +7,7 @@ import Helm.Model.Strvals
 import Helm.Model.Options
 import Helm.Lemmas.Values
 import Helm.Lemmas.Strvals
+import Helm.Lemmas.StrvalsPath
 import Helm.Spec.Tables
 
 namespace Helm.Props.C04
@@ -140,5 +141,45 @@ theorem index_limit (l : VList) (i : Int) (v : Val) :
   have : (Helm.Gen.maxIndex : Int) = 65536 := by decide
   rw [this]
   by_cases h1 : i < 0 <;> by_cases h2 : i > 65536 <;> simp [h1, h2, Except.toOption] <;> omega
+
+/-! ## 5. `--set` / `--set-string`: an expression changes exactly the path it names -/
+
+/-- Round trip of the documented escaping, for **every** key path (segments are arbitrary
+non-empty rune strings: dots, commas, equals signs, brackets, braces, backslashes, spaces,
+unicode ...) and every value string: parsing `k1.k2.….kn=v`, each part rendered with the
+backslash escaping, stores exactly the value at exactly that path of the destination map.
+`--set-string` stores the string; `--set` stores `typedVal v`.
+Guards (each is what the real parser rejects otherwise): at most 31 segments
+(MaxNestedNameLevel + 1); every proper prefix of the path is absent or a map in `dest`. -/
+theorem set_roundtrip (m : Mode) (hm : m = .typed ∨ m = .string) (ks : List Str) (v : Str)
+    (dest : Tbl) (hks : ks ≠ []) (hne : ∀ k ∈ ks, k ≠ [])
+    (hlen : ks.length ≤ Helm.Gen.maxNestedNameLevel + 1) (hc : compat ks dest) :
+    parseInto m (pathExpr ks v) dest = (setPath ks dest (reader m v), none) :=
+  parseInto_path m hm ks v dest hks hne hlen hc
+
+/-- premises are satisfiable by a non-trivial state -/
+example : compat [['a'], ['.', 'b']] (.cons "a" (.tbl (.cons "x" .null .nil)) .nil) := by
+  simp [compat, Tbl.get?]
+
+/-- After the parse the named path holds the value ... -/
+theorem set_hits_path (ks : List Str) (t : Tbl) (v : Val) (hks : ks ≠ []) :
+    lookupStr (setPath ks t v) ks = some v :=
+  setPath_hit ks t v hks
+
+/-- ... and every path that is neither a prefix nor an extension of it reads as before. -/
+theorem set_frame (ks q : List Str) (t : Tbl) (v : Val) (hd : diverge ks q) (hc : compat ks t) :
+    lookupStr (setPath ks t v) q = lookupStr t q :=
+  setPath_frame ks q t v hd hc
+
+/-- `--set-string` never converts. -/
+theorem set_string_keeps_text (v : Str) : reader .string v = .str (String.ofList v) := rfl
+
+/-- `--set` type rules on concrete literals (tests of the `typedVal` model, labelled as tests). -/
+example : typedVal "true".toList false = .bool true ∧ typedVal "FALSE".toList false = .bool false ∧
+    typedVal "Null".toList false = .null ∧ typedVal "0".toList false = .num "0" ∧
+    typedVal "007".toList false = .str "007" ∧ typedVal "12".toList false = .num "12" ∧
+    typedVal "-5".toList false = .num "-5" ∧ typedVal "1.5".toList false = .str "1.5" ∧
+    typedVal "9223372036854775808".toList false = .str "9223372036854775808" := by
+  refine ⟨?_, ?_, ?_, ?_, ?_, ?_, ?_, ?_, ?_⟩ <;> rfl
 
 end Helm.Props.C04
